@@ -43,3 +43,17 @@ def token_sites():
                         out.setdefault(ev[3], set()).update(ev[1])
         _cache["toksites"] = out
     return _cache["toksites"]
+
+
+def call_la():
+    """(callee production, line of the call) -> union of the look-ahead sets (next token) with which that call is made, over all clones"""
+    if "call_la" not in _cache:
+        ex, g = get()
+        out = {}
+        for key, prod in ex.prods.items():
+            for e in prod.edges:
+                for ev in e.events:
+                    if ev[0] == "call" and len(ev) > 4:
+                        out.setdefault((ev[1], ev[4]), set()).update(ev[3][0])
+        _cache["call_la"] = out
+    return _cache["call_la"]
